@@ -320,6 +320,45 @@ def stale_reference_rule(prog, res):
                     res.ok('dangling', 'reference `%s` to a container element' % d['name'], f.loc(n['id']), 'no resizing of %s between the binding and the uses' % '.'.join(path[:path.index('[]')]),
                            function=f.sig, expr='stale-ref:%s@%d' % (d['name'], n['id']))
     res.minimum('local references to container elements', nrefs, 2)
+    # (c) a reference parameter of the element type of a member container may designate an element
+    # of that container (obj.frame(obj.frame(0))): it must not be read after the container may reallocate
+    npar = 0
+    for f in prog.repo_funcs():
+        if f.kind != 'method' or f.implicit or not f.cls or f.cls not in prog.classes:
+            continue
+        vec = {}
+        for fl in prog.classes[f.cls]['fields']:
+            m = re.match(r'^std::vector<(.*)>$', fl['type'])
+            if m:
+                vec[m.group(1)] = fl['name']
+        for pi, prm in enumerate(f.params):
+            m = re.match(r'^const (.*) &$', prm['type'])
+            if not m or m.group(1) not in vec:
+                continue
+            cont = vec[m.group(1)]
+            npar += 1
+            g = f.events()
+            grow = [e for e in E.events_of(f, 'this') if tuple(e[2]) == (cont,) and e[3] in ('resize', 'insert', 'assign', 'erase', 'clear')]
+            uses = [x for x in f.all_nodes({'DeclRefExpr'}) if x['decl'].get('dk') == 'param' and x['decl'].get('id') == prm['id']]
+            bad = None
+            for e in grow:
+                ev = g.vertex_of.get(e[0])
+                if ev is None:
+                    continue
+                after = g.reach([ev])
+                late = [u for u in uses if g.vertex_of.get(u['id']) in after and u['id'] not in f.descendants(e[0])]
+                if late:
+                    bad = (e, late[0])
+                    break
+            inst = '%s::%s: argument `%s` may be an element of %s' % (f.cls.split('::')[-1], f.name, prm['name'], cont)
+            if bad:
+                e, u = bad
+                res.viol('dangling', inst, f.loc(u['id']), 'the container may be reallocated by %s at %s and the argument is read afterwards: when the caller passes an element of the '
+                         'same container (x.%s(x.%s(0), n)) the reference dangles' % (FX.fmt(e), f.loc(e[0]), f.name, f.name), function=f.sig, expr='param-alias:' + prm['name'])
+            else:
+                res.ok('dangling', inst, f.loc(), 'the argument is not read after a reallocation of %s (push_back of the argument itself is alias-safe)' % cont,
+                       function=f.sig, expr='param-alias:' + prm['name'])
+    res.minimum('methods storing an argument of the element type of their own container', npar, 4)
 
 
 def raw_owner_rule(prog, res):
